@@ -64,6 +64,29 @@ pub fn mutate(rng: &mut Rng, seed: &[u8]) -> (Vec<u8>, &'static str) {
     }
 }
 
+/// TH11+ ANM (16-bit header layout): the first entry with embedded data whose padded extraction canvas
+/// (offset + texture size, 4 bytes per pixel) exceeds 256 MiB, read from the raw bytes:
+/// (offset_x, offset_y, width, height).  Header: u16 x at +0x14, y at +0x16, u32 thtx offset at +0x1c,
+/// u16 has_data at +0x20, u32 next offset at +0x24; THTX: magic, u16 0, u16 format, u16 w, u16 h, u32 size.
+fn declared_canvas(game: truth::Game, b: &[u8]) -> Option<(u32, u32, u32, u32)> {
+    use crate::layout::{u16_at, u32_at};
+    if game < truth::Game::Th11 { return None; }
+    let mut e = 0usize;
+    for _ in 0..10_000 {
+        let (ox, oy) = (u16_at(b, e + 0x14).ok()? as u32, u16_at(b, e + 0x16).ok()? as u32);
+        let thtx = u32_at(b, e + 0x1c).ok()? as usize;
+        let has_data = u16_at(b, e + 0x20).ok()?;
+        let next = u32_at(b, e + 0x24).ok()? as usize;
+        if has_data != 0 && thtx != 0 && b.get(e + thtx..e + thtx + 4) == Some(b"THTX") {
+            let (w, h) = (u16_at(b, e + thtx + 8).ok()? as u32, u16_at(b, e + thtx + 10).ok()? as u32);
+            if 4 * (ox as u64 + w as u64) * (oy as u64 + h as u64) > (256 << 20) { return Some((ox, oy, w, h)); }
+        }
+        if next == 0 { return None; }
+        e = e.checked_add(next)?;
+    }
+    None
+}
+
 /// read + decompile (+ extract for ANM) a byte string; any panic is caught by the worker
 fn read_file_case(format: Format, game: truth::Game, optbits: u32, bytes: &[u8]) -> Sexp {
     let base = crate::alloc::reset_peak();
@@ -73,12 +96,21 @@ fn read_file_case(format: Format, game: truth::Game, optbits: u32, bytes: &[u8])
         let script = tc::decompile_ast(truth, format, game, &file, &options)?;
         let text = truth::fmt::stringify_with(&script, truth::fmt::Config::new().max_columns(100));
         if let tc::Compiled::Anm(anm) = &file {
+            // Known open finding, classified here instead of being run (a run takes minutes and 17 GB):
+            // extraction pads the texture with `offset_x` columns and `offset_y` rows, so an entry of an
+            // accepted file that declares e.g. offsets 65535, 65535 costs (65535+w) x (65535+h) x 4 bytes.
+            if declared_canvas(game, bytes).is_some() { return Ok(usize::MAX); }   // sentinel, see below
             let dir = tempfile::tempdir().expect("tempdir");
             let fs = truth.fs();
             anm.extract_images(dir.path(), &fs)?;
         }
         Ok(text.len())
     });
+    if let (Some(n), Some((ox, oy, w, h))) = (out.value, declared_canvas(game, bytes)) {
+        if n == usize::MAX {
+            return fail("excessive-allocation image-extraction-canvas", format!("anm {game}: an accepted {} byte file declares image offsets ({ox}, {oy}) for a {w}x{h} texture: extraction allocates a {}x{} canvas = {} bytes", bytes.len(), ox + w, oy + h, 4 * (ox as u64 + w as u64) * (oy as u64 + h as u64)));
+        }
+    }
     let peak = crate::alloc::peak_above(base);
     let bound = 64 * bytes.len() + (64 << 20);
     if peak > bound { return fail("excessive-allocation", format!("{} {}: peak {} bytes for {} input bytes", format.name(), game, peak, bytes.len())); }
@@ -97,7 +129,7 @@ impl Prop for C16 {
     fn rule(&self) -> &'static str {
         "instruction level: valid encodings of every header layout, their truncations at every length and field-targeted mutations, random bytes; container level, compared with the model (MSG, STD both layouts, mission MSG, old ECL): compiler outputs of generated sources and the bundled binaries, pristine, truncated at every offset (small files) or sampled offsets, every aligned dword of the header / table region set to 0, all ones and the file length, count / offset / size fields overwritten with boundary values and nudged by small deltas, random damage, and random / all-zero / all-ones byte strings; offset tables whose entries share one target (read only, peak heap against the bound); file level: compiler outputs of generated sources of every format/game and all bundled binaries, mutated by truncation, bit flips, 16/32-bit field overwrites with boundary values, off-by-one nudges, appended garbage; each read + decompiled under a random subset of the five --no-* options (+ image extraction for ANM); oracle: no panic/abort/timeout(20 s), peak heap <= 64 x input + 64 MiB (counting allocator), failure implies an error diagnostic; non-trivial = mutated (not the pristine file); distinct by case text"
     }
-    fn theorems(&self) -> &'static [&'static str] { &["TruthModel.C16.readInstr_no_panic", "TruthModel.C16.readInstrs_fuel_suffices", "TruthModel.C16.msg_read_no_panic", "TruthModel.C16.msg_read_total", "TruthModel.C16.std_read_no_panic", "TruthModel.C16.std_read_total", "TruthModel.C16.mission_read_no_panic", "TruthModel.C16.mission_read_total", "TruthModel.C16.ecl_read_panic_site", "TruthModel.C16.ecl_read_total", "TruthModel.C16.std_read_alloc_bound", "TruthModel.C16.ecl_read_alloc_bound"] }
+    fn theorems(&self) -> &'static [&'static str] { &["TruthModel.C16.readInstr_no_panic", "TruthModel.C16.readInstrs_fuel_suffices", "TruthModel.C16.msg_read_no_panic", "TruthModel.C16.msg_read_total", "TruthModel.C16.std_read_no_panic", "TruthModel.C16.std_read_total", "TruthModel.C16.mission_read_no_panic", "TruthModel.C16.mission_read_total", "TruthModel.C16.ecl_read_no_panic", "TruthModel.C16.ecl_read_total", "TruthModel.C16.std_read_alloc_bound", "TruthModel.C16.ecl_read_alloc_bound"] }
 
     fn gen(&self, tier: Tier, rng: &mut Rng) -> Vec<Case> {
         let scale = if tier == Tier::Quick { 1 } else { 30 };
@@ -149,6 +181,23 @@ impl Prop for C16 {
         for _ in 0..60 * scale.min(5) {
             let g = gensrc::gen_any(rng);
             if let Some(b) = compile_seed(&g) { seeds.push((g.format, g.game, b, "generated".into())); }
+        }
+        // stack ECL (TH10+): the shared generators have no source language for it; a small file per game
+        for g in ["th10", "th12", "th15", "th17"] {
+            let src = "void main() {\n    ins_0(@blob=\"\");\n+10:\n    ins_10(@blob=\"\");\n}\nvoid other() {\n    ins_1(@blob=\"00000000\");\n}\n";
+            let gs = gensrc::GenSource { format: Format::Ecl, game: tc::game(g), text: src.to_string(), maps: vec![] };
+            if let Some(b) = compile_seed(&gs) { seeds.push((Format::Ecl, tc::game(g), b, "stack-ecl".into())); }
+        }
+        // header sweep: every one of the first 24 dwords of every seed file set to all-ones / i32::MAX
+        // (counts, sizes and offsets live there; a reader must not trust them with an allocation or an index)
+        for (format, game, bytes, _) in &seeds {
+            for i in 0..(bytes.len() / 4).min(24) {
+                for v in [0xffff_ffffu32, 0x7fff_ffff] {
+                    let mut mb = bytes.clone();
+                    mb[4 * i..4 * i + 4].copy_from_slice(&v.to_le_bytes());
+                    out.push(Case::search(Sexp::app("readfile", vec![Sexp::atom(format.name()), Sexp::atom(format!("{game}")), Sexp::int(0), Sexp::atom(hex(&mb))])).tag(format!("file-header-sweep-{}", format.name())));
+                }
+            }
         }
         for (format, game, bytes, name) in &seeds {
             let mk = |by: &[u8], bits: u32| Sexp::app("readfile", vec![Sexp::atom(format.name()), Sexp::atom(format!("{game}")), Sexp::int(bits), Sexp::atom(hex(by))]);
